@@ -102,6 +102,7 @@ void op_fdworld (char **tok, int ntok) ;
 
 /* failopen.c (C09 / C16: one open attempt + "did it change the caller's file") */
 void op_failopen (char **tok, int ntok) ;
+void op_second (char **tok, int ntok) ;		/* secondfile.c */
 
 /* _exit skips the atexit handlers: a coverage build (tools/coverage.sh) dumps its counters first */
 #ifdef SFH_COVERAGE
